@@ -1,9 +1,10 @@
 """C33 — cached state never leaks stale or wrong results into later calls."""
 import os, json, time
 import cache_ops
+import odeseg_ops
 
 LEVEL = "proof"
-LEAN_MODULES = ["MpProofs.Cache", "MpProofs.CacheOld", "Props.C33"]
+LEAN_MODULES = ["MpProofs.Cache", "MpProofs.CacheOld", "Props.C33", "MpProofs.OdeSeg", "Props.C33ode"]
 ASSUMPTIONS = [
     "crash points are the calls that can raise (the memoised computation and the primitives inside it), not the gap between "
     "two plain assignments: an asynchronous interrupt between `f.memo_val = ...` and `f.memo_prec = ...` breaks the invariant "
@@ -13,7 +14,12 @@ ASSUMPTIONS = [
     "with the real underlying function as F, and a final probe with a fresh process",
     "`prec <= int(prec*1.05+10)` is proved for prec < 4200 (Mp.newprec_ge_small) and is a hypothesis of constantMemo_refines beyond; "
     "the binary64 model of that expression is validated against CPython (C17)",
-    "odefun segments (C34) and ifac/ifib/eulernum caches (C25) are not part of this check",
+    "ifac/ifib/eulernum caches (C25) are not part of this check",
+    "odefun segment cache (Props/C33ode.lean): abscissae are finite (x = nan / +inf make the real extension loop run forever and are "
+    "not queried); every ode_taylor step moves the boundary strictly to the right (hypothesis Incr, checked on every real step of the "
+    "run); F is a pure function apart from the injected transient faults; the crash points are the calls of F inside ode_taylor — an "
+    "asynchronous interrupt between `series_boundaries.append(xb)` and `series_data.append(...)` breaks the cache "
+    "(Mp.odeSeg_async_counterexample) and is outside the quantifier",
     "`rounding-level differences` are accepted as the property states: fixed-point constants that differ by one unit in the last "
     "place, bernoulli numbers from mpf_bernoulli_huge versus the recurrence (<= 1 ulp)",
 ]
@@ -70,12 +76,18 @@ def run(ctx):
         inp_ = f.get("input") or {}
         if inp_.get("kind") == "lu-history" and cache_ops.replay_lu(inp_):
             fails.append({"site": f.get("site"), "what": f.get("what"), "input": inp_})
+        if inp_.get("kind") == "odeseg-history" and odeseg_ops.replay(inp_):
+            fails.append({"site": f.get("site"), "what": f.get("what"), "input": inp_})
         code = inp_.get("code")
         if code:
             out = fr.eval(code)
             if out.startswith("{'stale': True"):
                 fails.append({"site": f.get("site"), "what": f.get("what"), "input": {"kind": "replay", "code": code, "observed": out}})
     fr.close()
+    # odefun segment cache (series_boundaries / series_data)
+    ode_cov, ode_fails, ode_dis = odeseg_ops.run_odeseg(ctx)
+    fails += ode_fails
+    dis += ode_dis
     steps = sum(v for k, v in H.count.items() if k.endswith("_steps"))
     probes = sum(v for k, v in H.count.items() if k.endswith("_probes"))
     cov = {
@@ -100,7 +112,9 @@ def run(ctx):
         "failing_per_site": {},
         "undecided": 0,
     }
-    cov["distinct_nontrivial"] = steps
+    cov["distinct_nontrivial"] = steps + ode_cov["distinct_nontrivial"]
+    cov["evaluations"] += ode_cov["evaluations"]
+    cov["odefun_segment_cache"] = ode_cov
     for f in fails:
         cov["failing_per_site"][f["site"]] = cov["failing_per_site"].get(f["site"], 0) + 1
     return {"coverage": cov, "failing_inputs": fails, "disagreements": dis}
